@@ -73,6 +73,25 @@ def periodic_tail(tail):
     return None
 
 
+def _variants_for_history(e):
+    """e with one (non-leaf, else first) operand x replaced by x + 0"""
+    import miasm.expression.expression as m
+    kids = simplab.children(e)
+    if not kids:
+        return []
+    idx = 0
+    for i, k in enumerate(kids):
+        if simplab.children(k):
+            idx = i
+            break
+    k = kids[idx]
+    try:
+        wrapped = m.ExprOp('+', k, m.ExprInt(0, k.size))
+        return [simplab.rebuild(e, kids[:idx] + [wrapped] + kids[idx + 1:])]
+    except Exception:
+        return []
+
+
 def judge(e, stats=None, info=None):
     simps, rec, log = simplifiers()
     out = []
@@ -84,6 +103,14 @@ def judge(e, stats=None, info=None):
         return out
     for cname in CONFIGS:
         simp = simps[cname]
+        # history: first simplify a close variant of e on the same simplifier instance (one operand wrapped in
+        # "+ 0"), so that cache entries left by another expression are in place when e itself is simplified; the
+        # output for e must still be a fixed point
+        for v in _variants_for_history(e):
+            try:
+                call_with_limit(LIMIT_S, simp, v)
+            except BaseException:
+                simp.cache.clear()
         rec.reset()
         log.reset()
         try:
